@@ -299,8 +299,11 @@ def hdel (v : Value) : CList → CList
   | [] => []
   | (k, c) :: rest => if cmp v k == 0 then rest else (k, c) :: hdel v rest
 
+/-- the count the Go code reads: `Get`, else `Put(value, &distinctKey{count: 0})` -/
+def hcount (m : CList) (v : Value) : Int := match hget v m with | some c => c | none => 0
+
 def distinctAdd (A : Agg) (s : CList × A.σ) (retr : Bool) (v : Value) : (CList × A.σ) × Bool :=
-  let c := match hget v s.1 with | some c => c | none => 0     -- `Get`, else `Put(value, &distinctKey{0})`
+  let c := hcount s.1 v
   let c' := if !retr then c + 1 else c - 1
   let m := hset v c' s.1
   if c' == 1 && !retr then
